@@ -167,6 +167,7 @@ pub fn apply(w: &mut World, op: &Op, armed: Option<u32>) -> TxOut {
                 fault_armed: None,
                 fault_fired: false,
                 msg_tree: vec![],
+                path: None,
             }
         }
         Op::Send { from, to, amount } => w.send_collateral(from, to, *amount),
@@ -183,6 +184,7 @@ pub fn apply(w: &mut World, op: &Op, armed: Option<u32>) -> TxOut {
                     fault_armed: None,
                     fault_fired: false,
                     msg_tree: vec![],
+                    path: None,
                 }
             }
         }
@@ -401,6 +403,8 @@ impl History {
             self.panics += 1;
         }
         let post = if self.snapshots { Rc::new(self.w.snap()) } else { pre.clone() };
+        let mut out = out;
+        out.path = Some(crate::mon::util::classify_path(&self.w, &op, &pre, &post, &out));
         let step = Rc::new(Step { seq: self.ops.len() - 1, op, armed, pre, post: post.clone(), out });
         self.last = post;
         for m in self.monitors.iter_mut() {
